@@ -6,5 +6,6 @@ CONSTANTS
   LatchChecked = TRUE
   CloseLatches = TRUE
   TimeoutReleases = FALSE
-INVARIANTS TypeOK LockOK WholeFrames AfterClose InOrder ResultsHonest
+  HandlerControlPath = TRUE
+INVARIANTS TypeOK LockOK MsgIntact WholeFrames AfterClose InOrder ResultsHonest
 CHECK_DEADLOCK FALSE
